@@ -5,7 +5,7 @@
    functions are then shown to drive the abstract automaton without ever
    getting stuck. *)
 From Coq Require Import ZArith NArith List Bool Lia Arith.
-From EvyV Require Import Base FmtAst Format FormatProofs.
+From EvyV Require Import Base FmtAst Format FormatProofs FormatNlProofs.
 Import ListNotations.
 Open Scope N_scope.
 
@@ -778,3 +778,190 @@ Section Stmts.
     - split_wf. rewrite <- (app_nil_r (write_comment ce)). norm. fl.
   Qed.
 End Stmts.
+
+(* ---------- the program ---------- *)
+Lemma is_blank_kind s : is_blank s = true <-> stmt_kind s = KEmpty.
+Proof.
+  destruct s; simpl; split; intro H; try discriminate; try reflexivity.
+  - rewrite H. reflexivity.
+  - destruct (is_empty c); [reflexivity | discriminate].
+Qed.
+
+Section Prog.
+  Variable fx : bool.
+
+  Lemma prog_loop_run nl l : forall i e b,
+    forallb wf_stmt l = true ->
+    (b <= 1)%nat ->
+    (b = 1%nat -> e = true \/ match l with s :: _ => is_blank s = false | [] => True end) ->
+    (forall j s', mem_nat (i + j) nl = true -> nth_error l (S j) = Some s' -> is_blank s' = false) ->
+    exists b', prun (PB b) (prog_loop fx nl i e l) = Some (PB b').
+  Proof.
+    induction l as [|s l IH]; intros i e b Hwf Hb1 Hb Hnl; cbn [prog_loop]; [exists b; reflexivity|].
+    cbn [forallb] in Hwf. apply andb_true_iff in Hwf as [Hw1 Hw2].
+    assert (Hnl' : forall j s', mem_nat (S i + j) nl = true -> nth_error l (S j) = Some s' -> is_blank s' = false).
+    { intros j s' Hm Hn. apply (Hnl (S j) s'); [replace (i + S j)%nat with (S i + j)%nat by lia; exact Hm | exact Hn]. }
+    destruct (is_blank s) eqn:Eb.
+    - destruct e; cbn [app].
+      + apply (IH (S i) true b); auto.
+      + assert (b = 0)%nat.
+        { destruct b as [|[|b]]; [reflexivity | | lia]. destruct (Hb eq_refl) as [Hx|Hx]; congruence. }
+        subst b. cbn [prun pstep]. apply (IH (S i) true 1%nat); auto.
+    - cbn [app]. cbn [prun pstep]. rewrite prun_app.
+      rewrite (flows_stmt fx s 0%nat Hw1 Eb (PB b)). cbn [app prun pstep].
+      destruct (mem_nat i nl) eqn:Em; cbn [app prun pstep].
+      + apply (IH (S i) false 1%nat); auto. intros _. right.
+        destruct l as [|s2 l']; [exact I|]. apply (Hnl 0%nat s2); [rewrite Nat.add_0_r; exact Em | reflexivity].
+      + apply (IH (S i) false 0%nat); auto; try lia; try (intro; discriminate).
+  Qed.
+
+  Lemma fmt_prog_run p : wf_prog p = true -> exists a', prun (PB 0) (fmt_prog fx p) = Some a'.
+  Proof.
+    intro Hwf. unfold fmt_prog. destruct p as [|s p]; [exists (PB 1); reflexivity|].
+    destruct (prog_loop_run (nl_after fx (map stmt_kind (s :: p))) (s :: p) 0%nat false 0%nat Hwf) as (b' & Hb'); try lia.
+    - intros j s' Hm Hn. cbn [Nat.add] in Hm.
+      destruct (nl_after_next_nonblank fx (map stmt_kind (s :: p)) j Hm) as (k & Hk & Hne).
+      rewrite nth_error_map, Hn in Hk. simpl in Hk. injection Hk as <-.
+      destruct (is_blank s') eqn:E; [|reflexivity]. apply is_blank_kind in E. congruence.
+    - exists (PB b'). exact Hb'.
+  Qed.
+
+  (* C07: shape of the output, for every well-formed tree *)
+  Theorem format_shape p : wf_prog p = true -> shape_lines (format fx p) = true.
+  Proof.
+    intro Hwf. destruct (fmt_prog_run p Hwf) as (a' & Ha'). unfold format. eapply prun_shape, Ha'.
+  Qed.
+End Prog.
+
+(* ---------- the final newline ---------- *)
+Definition inv_txt (a : pst) (s : str) : Prop :=
+  match a with
+  | PM => exists s' c, s = s' ++ [c] /\ (c =? 10) = false
+  | PB 0 => s = [] \/ exists s' c, s = s' ++ [c; 10] /\ (c =? 10) = false
+  | _ => True
+  end.
+
+Lemma tok_shape_last s : tok_shape s = true -> exists s' c, s = s' ++ [c] /\ (c =? 10) = false.
+Proof.
+  unfold tok_shape. destruct s as [|c0 s0]; [discriminate|]. intro H.
+  apply andb_true_iff in H as [_ H]. destruct (rev (c0 :: s0)) as [|x r] eqn:E; [discriminate|].
+  apply negb_true_iff in H. exists (rev r), x. split.
+  - rewrite <- (rev_involutive (c0 :: s0)), E. reflexivity.
+  - apply (space_not_nl x H).
+Qed.
+
+Lemma pstep_inv_txt a p a' s : inv_txt a s -> pstep a p = Some a' -> inv_txt a' (s ++ render1 p).
+Proof.
+  intros Hi Hp. destruct p as [t|t|t| | |n]; cbn [pstep render1] in *.
+  1-3: destruct (tok_shape t) eqn:E; [|discriminate]; injection Hp as <-;
+       destruct (tok_shape_last t E) as (s' & c & -> & Hc); exists (s ++ s'), c; rewrite app_assoc; auto.
+  - destruct a; try discriminate; injection Hp as <-; exact I.
+  - destruct a as [[|[|b]]|? ?| |]; try discriminate; injection Hp as <-; try exact I.
+    cbn [inv_txt] in Hi |- *. destruct Hi as (s' & c & -> & Hc). right. exists s', c. rewrite <- app_assoc. auto.
+  - destruct n as [|n].
+    + injection Hp as <-. cbn [spaces Nat.mul repeat]. rewrite app_nil_r. exact Hi.
+    + destruct a; try discriminate. injection Hp as <-. exact I.
+Qed.
+
+Lemma prun_inv_txt ps : forall a a' s, inv_txt a s -> prun a ps = Some a' -> inv_txt a' (s ++ render ps).
+Proof.
+  induction ps as [|p ps IH]; intros a a' s Hi Hr.
+  - injection Hr as <-. unfold render; simpl. rewrite app_nil_r. exact Hi.
+  - cbn [prun] in Hr. destruct (pstep a p) as [a1|] eqn:E; [|discriminate].
+    rewrite render_cons, app_assoc. apply (IH a1 a'); auto. apply (pstep_inv_txt a p a1 s Hi E).
+Qed.
+
+Lemma ends_one_nl_snoc s c : (c =? 10) = false -> ends_one_nl (s ++ [c; 10]) = true.
+Proof. intro H. unfold ends_one_nl. rewrite rev_app_distr. simpl. rewrite H. reflexivity. Qed.
+
+Section Final.
+  Variable fx : bool.
+
+  Lemma prog_loop_final nl l : forall i e b,
+    forallb wf_stmt l = true ->
+    l <> [] -> is_blank (last l (SEmpty [])) = false ->
+    (b <= 1)%nat ->
+    (b = 1%nat -> e = true \/ match l with s :: _ => is_blank s = false | [] => True end) ->
+    (forall j s', mem_nat (i + j) nl = true -> nth_error l (S j) = Some s' -> is_blank s' = false) ->
+    (forall j, mem_nat (i + j) nl = true -> (S j < List.length l)%nat) ->
+    prun (PB b) (prog_loop fx nl i e l) = Some (PB 0).
+  Proof.
+    induction l as [|s l IH]; intros i e b Hwf Hne Hlast Hb1 Hb Hnl Hsucc; [contradiction|].
+    cbn [prog_loop]. cbn [forallb] in Hwf. apply andb_true_iff in Hwf as [Hw1 Hw2].
+    assert (Hnl' : forall j s', mem_nat (S i + j) nl = true -> nth_error l (S j) = Some s' -> is_blank s' = false).
+    { intros j s' Hm Hn. apply (Hnl (S j) s'); [replace (i + S j)%nat with (S i + j)%nat by lia; exact Hm | exact Hn]. }
+    assert (Hsucc' : forall j, mem_nat (S i + j) nl = true -> (S j < List.length l)%nat).
+    { intros j Hm. assert (H := Hsucc (S j)). replace (i + S j)%nat with (S i + j)%nat in H by lia. specialize (H Hm). simpl in H. lia. }
+    destruct l as [|s2 l'].
+    - (* the last statement *)
+      cbn [last] in Hlast. rewrite Hlast. cbn [app prog_loop]. cbn [prun pstep]. rewrite prun_app.
+      rewrite (flows_stmt fx s 0%nat Hw1 Hlast (PB b)). cbn [app prun pstep].
+      destruct (mem_nat i nl) eqn:Em.
+      + exfalso. assert (H := Hsucc 0%nat). rewrite Nat.add_0_r in H. specialize (H Em). simpl in H. lia.
+      + reflexivity.
+    - assert (Hlast' : is_blank (last (s2 :: l') (SEmpty [])) = false) by exact Hlast.
+      assert (Hne' : s2 :: l' <> []) by discriminate.
+      destruct (is_blank s) eqn:Eb.
+      + destruct e; cbn [app].
+        * apply (IH (S i) true b); auto.
+        * assert (b = 0)%nat.
+          { destruct b as [|[|b]]; [reflexivity | | lia]. destruct (Hb eq_refl) as [Hx|Hx]; congruence. }
+          subst b. cbn [prun pstep]. apply (IH (S i) true 1%nat); auto.
+      + cbn [app]. cbn [prun pstep]. rewrite prun_app.
+        rewrite (flows_stmt fx s 0%nat Hw1 Eb (PB b)). cbn [app prun pstep].
+        destruct (mem_nat i nl) eqn:Em; cbn [app prun pstep].
+        * apply (IH (S i) false 1%nat); auto. intros _. right.
+          apply (Hnl 0%nat s2); [rewrite Nat.add_0_r; exact Em | reflexivity].
+        * apply (IH (S i) false 0%nat); auto; try lia; try (intro; discriminate).
+  Qed.
+
+  (* exactly one final newline when the last statement is not a blank line *)
+  Theorem format_single_final_newline p : wf_prog p = true -> p <> [] ->
+    is_blank (last p (SEmpty [])) = false -> ends_one_nl (format fx p) = true.
+  Proof.
+    intros Hwf Hne Hlast. unfold format, fmt_prog. destruct p as [|s p]; [contradiction|].
+    set (nl := nl_after fx (map stmt_kind (s :: p))).
+    assert (Hrun : prun (PB 0) (prog_loop fx nl 0 false (s :: p)) = Some (PB 0)).
+    { apply prog_loop_final; auto; try lia.
+      - intros j s' Hm Hn. cbn [Nat.add] in Hm.
+        destruct (nl_after_next_nonblank fx (map stmt_kind (s :: p)) j Hm) as (k & Hk & Hne').
+        rewrite nth_error_map, Hn in Hk. simpl in Hk. injection Hk as <-.
+        destruct (is_blank s') eqn:E; [|reflexivity]. apply is_blank_kind in E. congruence.
+      - intros j Hm. cbn [Nat.add] in Hm.
+        destruct (nl_after_next_nonblank fx (map stmt_kind (s :: p)) j Hm) as (k & Hk & _).
+        assert (Hx : nth_error (map stmt_kind (s :: p)) (S j) <> None) by congruence.
+        apply nth_error_Some in Hx. rewrite map_length in Hx. exact Hx. }
+    pose proof (prun_inv_txt _ (PB 0) (PB 0) [] (or_introl eq_refl) Hrun) as Hi.
+    cbn [app inv_txt] in Hi. destruct Hi as [Hi|(s' & c & -> & Hc)].
+    - (* the text is not empty *)
+      exfalso. cbn [prog_loop] in Hi. destruct (is_blank s).
+      + cbn [app] in Hi. rewrite render_cons in Hi. cbn [render1 app] in Hi. discriminate Hi.
+      + cbn [app] in Hi. rewrite render_cons, render_app in Hi. cbn [render1 spaces Nat.mul repeat app] in Hi.
+        rewrite render_cons in Hi. cbn [render1 app] in Hi.
+        destruct (render (fmt_stmt fx 0 s)); discriminate Hi.
+    - apply ends_one_nl_snoc, Hc.
+  Qed.
+End Final.
+
+(* ---------- `evy fmt --check` ---------- *)
+Lemma fmt_check_iff parse fx t :
+  fmt_check parse fx t = true <-> exists p, parse t = Some p /\ t = format fx p.
+Proof.
+  unfold fmt_check. destruct (parse t) as [p|].
+  - destruct (str_eq_dec t (format fx p)) as [E|E]; split.
+    + intros _. exists p. auto.
+    + reflexivity.
+    + discriminate.
+    + intros (p' & Hp & Ht). injection Hp as <-. contradiction.
+  - split; [discriminate | intros (p & Hp & _); discriminate].
+Qed.
+
+(* the check accepts the formatter's output iff formatting is idempotent on it *)
+Lemma check_accepts_own_output parse fx p p' :
+  parse (format fx p) = Some p' ->
+  (fmt_check parse fx (format fx p) = true <-> format fx p' = format fx p).
+Proof.
+  intro Hp. rewrite fmt_check_iff. split.
+  - intros (q & Hq & Ht). rewrite Hp in Hq. injection Hq as <-. symmetry. exact Ht.
+  - intro H. exists p'. split; [exact Hp | symmetry; exact H].
+Qed.
